@@ -130,8 +130,28 @@ def _crash_task(a) -> Dict[str, Any]:
             res = worker.run_forked(rec_seg)
             pt = {"i": i, "point": point, "recovery": _judge_recovery(res, vrec, before, after)}
             out["points"].append(pt)
-            if double and not pt["recovery"]["bad"]:
-                pass
+            if double and not pt["recovery"]["bad"] and i % 3 == 1:
+                # double crash: the recovery itself is killed at each of its mutating calls, then a
+                # second recovery is judged (the first recovery's evaluation is the second victim)
+                crashed_tree = os.path.join(root, "crashed_snapshot")
+                shutil.rmtree(crashed_tree, ignore_errors=True)
+                shutil.rmtree(store_dir, ignore_errors=True)
+                if os.path.isdir(snap):
+                    shutil.copytree(snap, store_dir, symlinks=True)
+                pv0 = explorer.run_solo(victim, [store_dir], crash_before=i)
+                if os.path.isdir(store_dir):
+                    shutil.copytree(store_dir, crashed_tree, symlinks=True)
+                pr = explorer.run_solo(victim, [store_dir])
+                for j in range(1, getattr(pr, "nmut", 0) + 1):
+                    shutil.rmtree(store_dir, ignore_errors=True)
+                    if os.path.isdir(crashed_tree):
+                        shutil.copytree(crashed_tree, store_dir, symlinks=True)
+                    pj = explorer.run_solo(victim, [store_dir], crash_before=j)
+                    if not pj.killed:
+                        continue
+                    res2 = worker.run_forked(rec_seg)
+                    out["points"].append({"i": i, "j": j, "point": point + "|then-recovery-killed-before-call-%d" % j,
+                                          "recovery": _judge_recovery(res2, vrec, before, after)})
     except BaseException as e:
         import traceback
         out["fatal"] = traceback.format_exc()[-1500:]
@@ -180,8 +200,11 @@ def _judge_recovery(res: Dict[str, Any], vrec: Dict[str, Any], before: Dict[str,
 PLANS = [["eval"], ["eval", "edit", "eval"], ["eval2"]]
 
 
-def scenario_shapes() -> List[Shape]:
-    S = [s for s in shp.core_shapes() if s.name in ("chain", "nest", "args")] + [shp.single_shape()]
+def scenario_shapes(tier: str = "quick") -> List[Shape]:
+    names = ("chain", "nest", "args") if tier == "quick" else ("chain", "nest", "args", "shared", "rt3", "rootarg", "rtchain")
+    S = [s for s in shp.core_shapes() if s.name in names] + [shp.single_shape()]
+    if tier == "thorough":
+        S += [s for s in shp.load_shapes() if s.name in ("ld_df", "ld_keep", "ld_nested")]
     return S
 
 
@@ -192,7 +215,7 @@ def run_c06(tier: str) -> int:
     # 1. design level: the local-store protocol as a PlusCal algorithm over the FS model
     fsmodel.design_checks(rep, "C06", tier)
     # 2. crash-point enumeration on the real code
-    S = scenario_shapes()
+    S = scenario_shapes(tier)
     (_, hs) = evalfam.tlc_generate(S, PLANS, 1, "local", "package", ["one"], name="g06_")
     byname = {s.name: s for s in S}
     items = []
@@ -238,7 +261,7 @@ def run_c06(tier: str) -> int:
             npoints += 1
             distinct.add((t[1]["name"], scen, pt["point"]))
             if pt["recovery"]["bad"]:
-                rep.violation("C06|%s|%s|%s" % (pt["recovery"]["bad"], pt["point"], scen),
+                rep.violation("C06|%s|%s|%s" % (pt["recovery"]["bad"], pt["point"].split("|then-recovery-killed")[0] + ("|double-crash" if "j" in pt else ""), scen),
                               {"shape": t[1], "history": t[2], "store": t[3], "crash_before_mutating_call": pt["i"],
                                "point": pt["point"], "recovery": pt["recovery"]})
         if out["points"]:
